@@ -25,7 +25,7 @@ LEVEL_TEXT = ("Step-cases with 10^3 particles each: random steep and flat bathym
 LEVEL_NOTE = "Asserted only where |vertical displacement| < h(start cell), as the property states. Trusts the spied W as the diffusion draw (its statistics are C11)."
 RULE = ("case = direct (bathymetry seed, Dz, w, scheme, flow) or e2e (ROMS world, Dz, w). Non-trivial: some particle was reflected at the surface or at the bottom and some particle "
         "changed cell during the step; distinct by parameters.")
-MANDATORY = ["vertical_advection_on_with_w_exactly_zero_and_diffusion", "e2e_second_run_on_rewritten_shallower_files", "e2e_horizontal_diffusion_too", "e2e_forcing_files_with_other_bathymetry", "e2e_grid_module_ROMS2", "e2e_vtransform1_cells_shallower_than_hc", "reflected_at_surface", "reflected_at_bottom", "changed_cell_same_step", "start_at_surface_or_bottom", "vertical_advection", "vertical_diffusion",
+MANDATORY = ["e2e_w_packed_differently_in_each_forcing_file", "vertical_advection_on_with_w_exactly_zero_and_diffusion", "e2e_second_run_on_rewritten_shallower_files", "e2e_horizontal_diffusion_too", "e2e_forcing_files_with_other_bathymetry", "e2e_grid_module_ROMS2", "e2e_vtransform1_cells_shallower_than_hc", "reflected_at_surface", "reflected_at_bottom", "changed_cell_same_step", "start_at_surface_or_bottom", "vertical_advection", "vertical_diffusion",
              "both_off_untouched", "steps_checked", "e2e_records_checked", "large_displacement_fraction", "e2e_subgrid_off_diagonal", "inactive_particles_reflected", "e2e_inactive_particles"]
 ASSUMPTIONS = ["|displacement| < h of the start cell (larger ones are outside the property)"]
 TIMEOUT = {"quick": 900, "thorough": 3400}
@@ -164,6 +164,15 @@ def _e2e(case, wd, V, sit, cnt):
     w = dict(imax=imax, jmax=jmax, N=N, t0=str(tadd(start, -dt)), frames=[0, 20 * dt], files=[2], h=dict(kind="random", hmin=hmin, hmax=120.0, seed=case["idx"]),
              vel=dict(kind="const", u=sp * float(rng.uniform(-1, 1)), v=sp * float(rng.uniform(-1, 1))), metric=dict(kind="uniform", dx=1000.0, dy=1000.0),
              vert=dict(Vtransform=2, Vstretching=4, theta_s=3.0, theta_b=0.5, hc=10.0), scalars=dict(w=dict(kind="const", value=wv, w_levels=True)))
+    packed_w = bool(case["idx"] % 4 == 1 and mode in (1, 2) and case["idx"] % 5 != 4)
+    if packed_w:
+        # w stored packed, each forcing file with its own scale factor (the value is a multiple of both, so nothing is lost in either file)
+        wv = float(np.round(wv * 2.0**15) / 2.0**15)
+        w["scalars"] = dict(w=dict(kind="const", value=wv, w_levels=True))
+        w["frames"], w["files"] = [0, 4 * dt, 20 * dt], [1, 2]
+        w["pack"] = dict(w=(2.0**-16, 0.0))
+        w["pack_per_file"] = [dict(w=(2.0**-16, 0.0)), dict(w=(2.0**-15, 0.0))]
+        _bump(sit, "e2e_w_packed_differently_in_each_forcing_file")
     if shallow_v1:
         w["vert"] = dict(Vtransform=1, Vstretching=1, theta_s=3.0, theta_b=0.4, hc=10.0, write_Vtransform=bool(case["idx"] % 8 == 3))
         _bump(sit, "e2e_vtransform1_cells_shallower_than_hc")
